@@ -68,7 +68,14 @@ func analyseDriver(sk *Skeleton) *DriverFacts {
 	}
 	pe := newPathEnum(sk.Info)
 	var err error
-	d.paths, err = pe.Enumerate(d.loop.Body.List)
+	body := d.loop.Body.List
+	if d.loop.Cond != nil && d.loop.Init == nil && d.loop.Post == nil {
+		// `for c { … }` is `for { if !c { break }; … }`
+		guard := &ast.IfStmt{If: d.loop.Cond.Pos(), Cond: &ast.UnaryExpr{OpPos: d.loop.Cond.Pos(), Op: token.NOT, X: &ast.ParenExpr{Lparen: d.loop.Cond.Pos(), X: d.loop.Cond, Rparen: d.loop.Cond.End()}},
+			Body: &ast.BlockStmt{Lbrace: d.loop.Cond.End(), List: []ast.Stmt{&ast.BranchStmt{TokPos: d.loop.Cond.End(), Tok: token.BREAK}}, Rbrace: d.loop.Cond.End()}}
+		body = append([]ast.Stmt{guard}, body...)
+	}
+	d.paths, err = pe.Enumerate(body)
 	if err != nil {
 		d.err = "cannot enumerate the driver loop: " + err.Error()
 		return d
